@@ -4,25 +4,21 @@ import (
 	"bufio"
 	"bytes"
 	"fmt"
-	"go/ast"
-	"go/token"
 	"os"
 	"os/exec"
 	"path/filepath"
 	"regexp"
 	"strconv"
 	"strings"
-
-	"golang.org/x/tools/go/ssa"
 )
 
 func init() {
 	register(&propDef{
 		ID:      "C10",
 		Level:   "proof",
-		Explain: "Proof, for the stated clauses only, that the hand-written ClientHello handling cannot read out of bounds or panic and never buffers more than the first TLS record: (M1) every index and slice expression in clientHelloBufferSize, readServerName and clientHelloMsg.unmarshal is proved in bounds by the Go compiler's prove pass (go build -gcflags='-l -d=ssa/check_bce/debug=1' reports every bounds check it could NOT eliminate; obligations are counted from the AST, discharged = those without a report); (M2) those functions contain no other panic source (no type assertion, integer division, map write, explicit panic, nil-able pointer dereference or call to a non-total function); (M3) the one residual bounds check of the SNI handler, data[5:], is discharged by the difference-bound prover: on every nil-error return clientHelloBufferSize returns >= 10; (S1) on every nil-error return result - recordLength <= 5 and result <= 16389, with recordLength the value assembled from header bytes 3-4 (the buffer never exceeds the first TLS record); (S2) the SNI handler allocates exactly that many bytes, fills them with the only consuming read before the route lookup (io.ReadFull), looks the route up under the parser's result, and returns on the !ok and host == \"\" edges before any lookup or dial. NOT covered by this claim: equality of the extracted name with crypto/tls's on well-formed hellos (semantic equivalence of two parsers).",
+		Explain: "Proof, for the stated clauses only, that the hand-written ClientHello handling cannot read out of bounds or panic and never buffers more than the first TLS record. The code is found by ROLE in the region of (*SNIProxy).ServeTCP, not by function name: parser roots = the same-package functions with a plain-data signature that the handler functions call with bytes captured before the route lookup (today clientHelloBufferSize and readServerName); parser region = the roots and every function of the package they call, however the parsing is cut into helpers. (M1) every index and slice expression of the parser region is in bounds: either the Go compiler's prove pass eliminates its check (go build -gcflags='-l -d=ssa/check_bce/debug=1' reports every check it could NOT eliminate; obligations are counted from the AST and matched by bracket position, an unattributable report taints its line), or - residual checks, typically in a helper whose parameter is what is indexed - the checker's own difference-bound prover shows index < len(operand) from the length facts that dominate the instruction: branch facts, len(x[a:b]) = b-a, len(make(n)) = n, the differences between the arguments proved at EVERY call site of a helper all of whose callers are static, and the bounds of helper results on their returns; there is no table of accepted expressions; (M2) the region contains no other panic source: no map write, explicit panic, go/defer/send, type assertion without comma-ok, recursion, call outside the region except a list of total library functions (binary.BigEndian.UintN needs len >= N/8 proved), no division or signed shift by a value not proved non-zero / non-negative, no make with an unproved size, no dereference of a pointer that is not an address taken in place, tested, or non-nil at every call site; (M3) what the handler functions themselves cut out of the captured bytes (data[5:]) is in bounds by the same two means - the prover uses the size function's bound on its nil-error returns (result >= 10); (S1) on every nil-error return of the size function result - recordLength <= 5 and result <= 16389, with recordLength any value that is the big-endian integer of bytes 3-4 of the function's input (shifts, encoding/binary, or a helper computing one of these), wrap-aware (a uint16 recordLength-4 is not recordLength-4); (S2) the capture buffer is make([]byte, n) with n the size function's result on its err == nil edge (through helper parameters and forwarding helpers), the one consuming read that can execute before a route lookup is io.ReadFull into the whole of it, every call of the Lookup callback takes a result of a parser call on the edge where that call reported success and the name is not empty. NOT covered by this claim: equality of the extracted name with crypto/tls's on well-formed hellos (semantic equivalence of two parsers).",
 		Run:     runC10,
-		Trusted: []string{"the Go compiler's prove pass is sound (a bounds check it eliminates cannot fail)", "the checker's difference-bound prover (Bellman-Ford over branch facts and SSA definitions)", "io.ReadFull fills the whole buffer or returns an error"},
+		Trusted: []string{"the Go compiler's prove pass is sound (a bounds check it eliminates cannot fail)", "the checker's difference-bound prover in c10_prove.go (Bellman-Ford over branch facts, wrap-aware SSA definitions, slice-length definitions, call-site and return summaries)", "every call of an unexported function that is not used as a value is a static call in a non-test file of the repository", "int is 64 bits wide and no slice is longer than 2^56 elements", "io.ReadFull fills the whole buffer or returns an error"},
 		Mutants: []mutant{
 			{Name: "delete one length test in unmarshal", File: "proxy/tcp/tls_clienthello.go", Old: "\t\tif len(data) < 4 {\n\t\t\treturn false\n\t\t}\n", New: "", Expect: "C10.M1"},
 			{Name: "session id length not checked against the data", File: "proxy/tcp/tls_clienthello.go", Old: "if sessionIdLen > 32 || len(data) < 39+sessionIdLen {", New: "if sessionIdLen > 32 {", Expect: "C10.M1"},
@@ -34,6 +30,80 @@ func init() {
 			{Name: "route looked up although parsing failed", File: "proxy/tcp/sni_proxy.go", Old: "\thost, ok := readServerName(data[5:])\n\tif !ok {", New: "\thost, ok := readServerName(data[5:])\n\tif !ok && host == \"x\" {", Expect: "C10.S2"},
 			{Name: "a division sneaks into the parser", File: "proxy/tcp/tls_clienthello.go", Old: "\tcipherSuiteLen := int(data[0])<<8 | int(data[1])\n", New: "\tcipherSuiteLen := int(data[0])<<8 | int(data[1])\n\tif 100/cipherSuiteLen > 3 {\n\t\treturn false\n\t}\n", Expect: "C10.M2"},
 			{Name: "benign: hoist len(data) into a local", File: "proxy/tcp/tls_clienthello.go", Old: "\tif len(data) < 42 {\n\t\treturn false\n\t}", New: "\tn := len(data)\n\tif n < 42 {\n\t\treturn false\n\t}", Expect: ""},
+			// ---- robustness: behaviour-preserving rewrites that move, rename or re-spell the parsing code (must stay silent)
+			{Name: "benign: big-endian decode moved into a cursor helper (bounds proved from the lengths at both call sites)", File: "proxy/tcp/tls_clienthello.go",
+				Old: "\tcipherSuiteLen := int(data[0])<<8 | int(data[1])\n", New: "\tcipherSuiteLen := be16(data)\n", Expect: "",
+				More: []repl{{"\t\tlength := int(data[2])<<8 | int(data[3])\n", "\t\tlength := be16(data[2:])\n"},
+					{"type clientHelloMsg struct {", "func be16(b []byte) int { return int(b[0])<<8 | int(b[1]) }\n\ntype clientHelloMsg struct {"}}},
+			{Name: "benign: record length read by a helper of the size function", File: "proxy/tcp/tls_clienthello.go",
+				Old: "\trecordLength := int(data[3])<<8 | int(data[4])\n", New: "\trecordLength := recLen(data)\n", Expect: "",
+				More: []repl{{"// readServerName returns the server name", "func recLen(hdr []byte) int { return int(hdr[3])<<8 | int(hdr[4]) }\n\n// readServerName returns the server name"}}},
+			{Name: "benign: encoding/binary instead of shifts in the parser", File: "proxy/tcp/tls_clienthello.go",
+				Old: "\tcipherSuiteLen := int(data[0])<<8 | int(data[1])\n", New: "\tcipherSuiteLen := int(binary.BigEndian.Uint16(data))\n", Expect: "",
+				More: []repl{{"import \"errors\"", "import (\n\t\"encoding/binary\"\n\t\"errors\"\n)"}}},
+			{Name: "benign: extension switch written as if", File: "proxy/tcp/tls_clienthello.go",
+				Old: "\t\tswitch extension {\n\t\tcase extensionServerName:\n", New: "\t\tif extension == extensionServerName {\n", Expect: ""},
+			{Name: "benign: message struct as a local value instead of new()", File: "proxy/tcp/tls_clienthello.go",
+				Old: "\tm := new(clientHelloMsg)\n\tif !m.unmarshal(", New: "\tvar m clientHelloMsg\n\tif !m.unmarshal(", Expect: ""},
+			{Name: "benign: extension loop moved into a method of the message", File: "proxy/tcp/tls_clienthello.go",
+				Old: "\tfor len(data) != 0 {\n\t\tif len(data) < 4 {", New: "\treturn m.extensions(data)\n}\n\nfunc (m *clientHelloMsg) extensions(data []byte) bool {\n\tfor len(data) != 0 {\n\t\tif len(data) < 4 {", Expect: ""},
+			{Name: "benign: readServerName inlined into the handler", File: "proxy/tcp/sni_proxy.go",
+				Old: "\thost, ok := readServerName(data[5:])\n\tif !ok {", New: "\tm := new(clientHelloMsg)\n\tok := m.unmarshal(data[5:])\n\thost := m.serverName\n\tif !ok {", Expect: ""},
+			{Name: "benign: route lookup behind a method of the proxy", File: "proxy/tcp/sni_proxy.go",
+				Old: "\tt := p.Lookup(host)\n", New: "\tt := p.lookupHost(host)\n", Expect: "",
+				More: []repl{{"func (p *SNIProxy) ServeTCP(in net.Conn) error {", "func (p *SNIProxy) lookupHost(name string) *route.Target { return p.Lookup(name) }\n\nfunc (p *SNIProxy) ServeTCP(in net.Conn) error {"}}},
+			{Name: "benign: the buffer spelled data[:] and the record header length named", File: "proxy/tcp/sni_proxy.go",
+				Old: "_, err = io.ReadFull(tlsReader, data)", New: "_, err = io.ReadFull(tlsReader, data[:])", Expect: "",
+				More: []repl{{"readServerName(data[5:])", "readServerName(data[recordHeader:])"}, {"func (p *SNIProxy) ServeTCP(in net.Conn) error {", "const recordHeader = 5\n\nfunc (p *SNIProxy) ServeTCP(in net.Conn) error {"}}},
+			{Name: "benign: capture moved into a helper that receives the size (buffer, read and size call in three functions)", File: "proxy/tcp/sni_proxy.go",
+				Old: "\tdata := make([]byte, bufferSize)\n\t_, err = io.ReadFull(tlsReader, data)\n", New: "\tdata, err := capture(tlsReader, bufferSize)\n", Expect: "",
+				More: []repl{{"func (p *SNIProxy) ServeTCP(in net.Conn) error {", "func capture(r *bufio.Reader, n int) ([]byte, error) {\n\tbuf := make([]byte, n)\n\tif _, err := io.ReadFull(r, buf); err != nil {\n\t\treturn nil, err\n\t}\n\treturn buf, nil\n}\n\nfunc (p *SNIProxy) ServeTCP(in net.Conn) error {"}}},
+			{Name: "benign: slicing and parsing behind a method of the proxy that forwards the parser's results", File: "proxy/tcp/sni_proxy.go",
+				Old: "\thost, ok := readServerName(data[5:])\n", New: "\thost, ok := p.sni(data)\n", Expect: "",
+				More: []repl{{"func (p *SNIProxy) ServeTCP(in net.Conn) error {", "func (p *SNIProxy) sni(hello []byte) (string, bool) { return readServerName(hello[5:]) }\n\nfunc (p *SNIProxy) ServeTCP(in net.Conn) error {"}}},
+			{Name: "benign: size function called through a handler helper that forwards its results", File: "proxy/tcp/sni_proxy.go",
+				Old: "\tbufferSize, err := clientHelloBufferSize(tlsHeaders)\n", New: "\tbufferSize, err := sizeOf(tlsHeaders, p)\n", Expect: "",
+				More: []repl{{"func (p *SNIProxy) ServeTCP(in net.Conn) error {", "func sizeOf(hdr []byte, _ *SNIProxy) (int, error) {\n\tn, err := clientHelloBufferSize(hdr)\n\tif err != nil {\n\t\treturn 0, err\n\t}\n\treturn n, nil\n}\n\nfunc (p *SNIProxy) ServeTCP(in net.Conn) error {"}}},
+			{Name: "forwarding helper adds a byte to the size", File: "proxy/tcp/sni_proxy.go",
+				Old: "\tbufferSize, err := clientHelloBufferSize(tlsHeaders)\n", New: "\tbufferSize, err := sizeOf(tlsHeaders, p)\n", Expect: "C10.S2",
+				More: []repl{{"func (p *SNIProxy) ServeTCP(in net.Conn) error {", "func sizeOf(hdr []byte, _ *SNIProxy) (int, error) {\n\tn, err := clientHelloBufferSize(hdr)\n\tif err != nil {\n\t\treturn 0, err\n\t}\n\treturn n + 1, nil\n}\n\nfunc (p *SNIProxy) ServeTCP(in net.Conn) error {"}}},
+			{Name: "benign: offset-style helper u16at(b, off): the relation between the two parameters is proved at each call site", File: "proxy/tcp/tls_clienthello.go",
+				Old: "\t\textension := uint16(data[0])<<8 | uint16(data[1])\n\t\tlength := int(data[2])<<8 | int(data[3])\n", New: "\t\textension := uint16(u16at(data, 0))\n\t\tlength := u16at(data, 2)\n", Expect: "",
+				More: []repl{{"type clientHelloMsg struct {", "func u16at(b []byte, off int) int { return int(b[off])<<8 | int(b[off+1]) }\n\ntype clientHelloMsg struct {"}}},
+			{Name: "benign: record length as data[3]*256 + data[4], limits written the other way round", File: "proxy/tcp/tls_clienthello.go",
+				Old: "\trecordLength := int(data[3])<<8 | int(data[4])\n\tif recordLength <= 0 || recordLength > 16384 {", New: "\trecordLength := int(data[3])*256 + int(data[4])\n\tif recordLength < 1 || 16384 < recordLength {", Expect: "",
+				More: []repl{{"handshakeLength > recordLength-4", "handshakeLength+4 > recordLength"}}},
+			// ---- the same shapes with a real defect (must be reported, by the rule that states the reason)
+			{Name: "cursor helper with two call sites, at one of them only one byte is known to be left", File: "proxy/tcp/tls_clienthello.go",
+				Old: "\textensionsLength := int(data[0])<<8 | int(data[1])\n", New: "\textensionsLength := be16(data[1:])\n", Expect: "C10.M1",
+				More: []repl{{"\tcipherSuiteLen := int(data[0])<<8 | int(data[1])\n", "\tcipherSuiteLen := be16(data)\n"}, {"type clientHelloMsg struct {", "func be16(b []byte) int { return int(b[0])<<8 | int(b[1]) }\n\ntype clientHelloMsg struct {"}}},
+			{Name: "offset-style helper called with an offset one too far", File: "proxy/tcp/tls_clienthello.go",
+				Old: "\t\textension := uint16(data[0])<<8 | uint16(data[1])\n\t\tlength := int(data[2])<<8 | int(data[3])\n", New: "\t\textension := uint16(u16at(data, 0))\n\t\tlength := u16at(data, 3)\n", Expect: "C10.M1",
+				More: []repl{{"type clientHelloMsg struct {", "func u16at(b []byte, off int) int { return int(b[off])<<8 | int(b[off+1]) }\n\ntype clientHelloMsg struct {"}}},
+			{Name: "record length assembled from the wrong header bytes", File: "proxy/tcp/tls_clienthello.go",
+				Old: "\trecordLength := int(data[3])<<8 | int(data[4])\n", New: "\trecordLength := int(data[2])*256 + int(data[3])\n", Expect: "C10.S1"},
+			{Name: "record-length helper called before the length test", File: "proxy/tcp/tls_clienthello.go",
+				Old: "\tif len(data) < 9 {", New: "\trecordLength := recLen(data)\n\tif len(data) < 9 {", Expect: "C10.M1",
+				More: []repl{{"\trecordLength := int(data[3])<<8 | int(data[4])\n", ""}, {"// readServerName returns the server name", "func recLen(hdr []byte) int { return int(hdr[3])<<8 | int(hdr[4]) }\n\n// readServerName returns the server name"}}},
+			{Name: "binary.BigEndian.Uint16 on a slice that may hold one byte", File: "proxy/tcp/tls_clienthello.go",
+				Old: "\tcipherSuiteLen := int(data[0])<<8 | int(data[1])\n", New: "\tcipherSuiteLen := int(binary.BigEndian.Uint16(data[1:]))\n", Expect: "C10.M2",
+				More: []repl{{"import \"errors\"", "import (\n\t\"encoding/binary\"\n\t\"errors\"\n)"}}},
+			{Name: "record length kept in uint16: recordLength-4 wraps for records of 1..3 bytes", File: "proxy/tcp/tls_clienthello.go",
+				Old: "\trecordLength := int(data[3])<<8 | int(data[4])\n\tif recordLength <= 0 || recordLength > 16384 {", New: "\trecordLength := uint16(data[3])<<8 | uint16(data[4])\n\tif recordLength == 0 || recordLength > 16384 {", Expect: "C10.S1",
+				More: []repl{{"handshakeLength > recordLength-4", "handshakeLength > int(recordLength-4)"}}},
+			{Name: "shift by a count computed from the input", File: "proxy/tcp/tls_clienthello.go",
+				Old: "\tcompressionMethodsLen := int(data[0])\n", New: "\tcompressionMethodsLen := int(data[0])\n\tif 1<<(compressionMethodsLen-200) > 5 {\n\t\treturn false\n\t}\n", Expect: "C10.M2"},
+			{Name: "parser inlined into the handler and called on a nil message", File: "proxy/tcp/sni_proxy.go",
+				Old: "\thost, ok := readServerName(data[5:])\n\tif !ok {", New: "\tvar m *clientHelloMsg\n\tok := m.unmarshal(data[5:])\n\thost := \"\"\n\tif !ok {", Expect: "C10.M2"},
+			{Name: "a helper consumes a byte of the stream before routing", File: "proxy/tcp/sni_proxy.go",
+				Old: "\ttlsReader := bufio.NewReader(in)\n", New: "\ttlsReader := bufio.NewReader(in)\n\tskipByte(tlsReader)\n", Expect: "C10.S2",
+				More: []repl{{"func (p *SNIProxy) ServeTCP(in net.Conn) error {", "func skipByte(r *bufio.Reader) { r.Discard(1) }\n\nfunc (p *SNIProxy) ServeTCP(in net.Conn) error {"}}},
+			{Name: "capture helper allocates one byte more than the size it is given", File: "proxy/tcp/sni_proxy.go",
+				Old: "\tdata := make([]byte, bufferSize)\n\t_, err = io.ReadFull(tlsReader, data)\n", New: "\tdata, err := capture(tlsReader, bufferSize)\n", Expect: "C10.S2",
+				More: []repl{{"func (p *SNIProxy) ServeTCP(in net.Conn) error {", "func capture(r *bufio.Reader, n int) ([]byte, error) {\n\tbuf := make([]byte, n+1)\n\tif _, err := io.ReadFull(r, buf); err != nil {\n\t\treturn nil, err\n\t}\n\treturn buf, nil\n}\n\nfunc (p *SNIProxy) ServeTCP(in net.Conn) error {"}}},
+			{Name: "handler skips six bytes of a buffer that is only known to hold five", File: "proxy/tcp/sni_proxy.go",
+				Old: "readServerName(data[5:])", New: "readServerName(data[6:])", Expect: "C10.M3",
+				More: []repl{{"\tbufferSize, err := clientHelloBufferSize(tlsHeaders)\n", "\tbufferSize, err := clientHelloBufferSize(tlsHeaders)\n\tbufferSize -= 5\n"}}},
 		},
 	})
 }
@@ -129,140 +199,19 @@ func runC10(c *Ctx) {
 		c.undecided("C10.M1", "anchor|compiler bounds-check report", err.Error())
 		return
 	}
-	unproved := map[string]map[int]string{} // file -> line -> kind
-	for _, r := range reps {
-		f := r.file
-		if !filepath.IsAbs(f) {
-			f = filepath.Join(c.Dir, f)
-		}
-		if unproved[f] == nil {
-			unproved[f] = map[int]string{}
-		}
-		unproved[f][r.line] = r.kind
-	}
-	parser := map[string]bool{"clientHelloBufferSize": true, "readServerName": true, "unmarshal": true}
-	nIdx := 0
-	for _, file := range pp.Syntax {
-		for _, d := range file.Decls {
-			fd, ok := d.(*ast.FuncDecl)
-			if !ok || !parser[fd.Name.Name] || fd.Body == nil {
-				continue
-			}
-			fname := fd.Name.Name
-			ast.Inspect(fd.Body, func(n ast.Node) bool {
-				var kind string
-				switch n.(type) {
-				case *ast.IndexExpr:
-					kind = "index"
-				case *ast.SliceExpr:
-					kind = "slice"
-				default:
-					return true
-				}
-				nIdx++
-				pos := c.Fset.Position(n.Pos())
-				why, bad := unproved[pos.Filename][pos.Line]
-				c.check("C10.M1", "proxy/tcp."+fname+"|"+kind+" expression proved in bounds", n.Pos(), !bad,
-					"the compiler's prove pass cannot show this "+kind+" expression in bounds ("+why+"): some ClientHello bytes make the parser read out of range and panic inside the connection handler")
-				return true
-			})
-			// M2: other panic sources (AST level)
-			ast.Inspect(fd.Body, func(n ast.Node) bool {
-				switch x := n.(type) {
-				case *ast.TypeAssertExpr:
-					c.check("C10.M2", "proxy/tcp."+fname+"|type assertion", x.Pos(), false, "a type assertion in the parser can panic")
-				case *ast.BinaryExpr:
-					if x.Op == token.QUO || x.Op == token.REM {
-						tv := pp.TypesInfo.Types[x.Y]
-						if tv.Value == nil {
-							c.check("C10.M2", "proxy/tcp."+fname+"|integer division by a computed value", x.Pos(), false, "division by a value taken from the input can panic (divide by zero)")
-						} else {
-							c.check("C10.M2", "proxy/tcp."+fname+"|division by a constant", x.Pos(), true, "")
-						}
-					}
-				case *ast.CallExpr:
-					if id, ok := x.Fun.(*ast.Ident); ok && id.Name == "panic" {
-						c.check("C10.M2", "proxy/tcp."+fname+"|explicit panic", x.Pos(), false, "explicit panic in the parser")
-					}
-				}
-				return true
-			})
-		}
-	}
-	c.atLeast("C10.M1", "index/slice expressions in the ClientHello parser", nIdx, 20)
-
-	// M2 on SSA: calls, map updates, pointer dereferences
-	bufSize := c.fn(pkg, "clientHelloBufferSize")
-	readName := c.fn(pkg, "readServerName")
-	unm := c.method(pkg, "clientHelloMsg", "unmarshal")
-	if !c.need("C10.M2", bufSize, "tcp.clientHelloBufferSize") || !c.need("C10.M2", readName, "tcp.readServerName") || !c.need("C10.M2", unm, "tcp.clientHelloMsg.unmarshal") {
+	// the handler is an interface method of the exported proxy type: stable enough to name
+	h := c.method(pkg, "SNIProxy", "ServeTCP")
+	if !c.need("C10.S2", h, "tcp.SNIProxy.ServeTCP") {
 		return
 	}
-	total := map[string]bool{"errors.New": true, "builtin.len": true, "builtin.cap": true}
-	for _, f := range []*ssa.Function{bufSize, readName, unm} {
-		okAll := true
-		detail := ""
-		eachInstr(f, func(i ssa.Instruction) {
-			switch x := i.(type) {
-			case *ssa.MapUpdate, *ssa.Panic, *ssa.TypeAssert, *ssa.Go, *ssa.Defer, *ssa.Send:
-				okAll, detail = false, fmt.Sprintf("%T", x)
-			case *ssa.Call:
-				if sc := x.Call.StaticCallee(); sc == unm && f == readName {
-					// receiver is the fresh allocation
-					if _, isAlloc := x.Call.Args[0].(*ssa.Alloc); !isAlloc {
-						okAll, detail = false, "unmarshal called on a possibly nil receiver"
-					}
-					return
-				}
-				if !total[calleeName(&x.Call)] {
-					okAll, detail = false, "call to "+calleeName(&x.Call)
-				}
-			}
-		})
-		c.check("C10.M2", fnKey(f)+"|no panic source besides the proved bounds checks", f.Pos(), okAll,
-			"the parser must stay free of constructs that can panic on hostile input ("+detail+")")
-	}
-
-	// ---- S1 / M3: bounds of the buffer size
-	var recordLen ssa.Value
-	eachInstr(bufSize, func(i ssa.Instruction) {
-		// the value assembled from data[3] and data[4]
-		if b, ok := i.(*ssa.BinOp); ok && b.Op == token.OR && recordLen == nil {
-			if usesIndex(b, 3) && usesIndex(b, 4) {
-				recordLen = b
-			}
-		}
-	})
-	if recordLen == nil {
-		c.undecided("C10.S1", "proxy/tcp.clientHelloBufferSize|record length", "the value built from header bytes 3-4 was not found")
-		return
-	}
-	nRet := 0
-	minResult := int64(1 << 62)
-	eachInstr(bufSize, func(i ssa.Instruction) {
-		r, ok := i.(*ssa.Return)
-		if !ok || len(r.Results) != 2 || !isNilConst(r.Results[1]) {
-			return
-		}
-		nRet++
-		d := dbmAt(r.Block())
-		res := r.Results[0]
-		ubRel, ok1 := d.upper(res, recordLen)
-		ubAbs, ok2 := d.upper(res, nil)
-		lb, ok3 := d.lower(res)
-		c.check("C10.S1", "proxy/tcp.clientHelloBufferSize|result - recordLength <= 5", r.Pos(), ok1 && ubRel <= 5,
-			fmt.Sprintf("the buffer size must not exceed the first TLS record (5 header bytes + recordLength); proved bound: result - recordLength <= %s", boundStr(ubRel, ok1)))
-		c.check("C10.S1", "proxy/tcp.clientHelloBufferSize|result <= 16389", r.Pos(), ok2 && ubAbs <= 16389,
-			fmt.Sprintf("the buffer size must not exceed a maximal TLS record (16384 + 5); proved bound: result <= %s", boundStr(ubAbs, ok2)))
-		c.check("C10.M3", "proxy/tcp.clientHelloBufferSize|result >= 10", r.Pos(), ok3 && lb >= 10,
-			fmt.Sprintf("the SNI handler slices data[5:] of a buffer of this size and the parser needs the 4-byte handshake header; proved bound: result >= %s", boundStr(lb, ok3)))
-		if ok3 && lb < minResult {
-			minResult = lb
-		}
-	})
-	c.atLeast("C10.S1", "nil-error returns of clientHelloBufferSize", nRet, 1)
-
-	runC10S2(c, bufSize, readName, minResult, unproved)
+	c10wrappedFor = c10scanWrapped(c.AllFns)
+	env := c10resolve(c, h)
+	bce := newC10BCE(c, pp, reps)
+	px := newC10Prover(nil)
+	runC10M1(c, env, bce, px)
+	runC10M2(c, env, px)
+	runC10S1(c, env, px)
+	runC10S2(c, env, bce, px)
 }
 
 func boundStr(v int64, ok bool) string {
@@ -270,118 +219,6 @@ func boundStr(v int64, ok bool) string {
 		return "unbounded"
 	}
 	return strconv.FormatInt(v, 10)
-}
-
-func usesIndex(v ssa.Value, k int64) bool {
-	return derives(v, func(x ssa.Value) bool {
-		ia, ok := x.(*ssa.IndexAddr)
-		if !ok {
-			return false
-		}
-		n, ok := constInt(ia.Index)
-		return ok && n == k
-	})
-}
-
-func runC10S2(c *Ctx, bufSize, readName *ssa.Function, minResult int64, unproved map[string]map[int]string) {
-	h := c.method("proxy/tcp", "SNIProxy", "ServeTCP")
-	if !c.need("C10.S2", h, "tcp.SNIProxy.ServeTCP") {
-		return
-	}
-	var sizeCall, nameCall *ssa.Call
-	eachInstr(h, func(i ssa.Instruction) {
-		if call, ok := i.(*ssa.Call); ok {
-			switch call.Call.StaticCallee() {
-			case bufSize:
-				sizeCall = call
-			case readName:
-				nameCall = call
-			}
-		}
-	})
-	if sizeCall == nil || nameCall == nil {
-		c.undecided("C10.S2", "(*proxy/tcp.SNIProxy).ServeTCP|calls of the size function and the parser", "not found")
-		return
-	}
-	isSize := func(v ssa.Value) bool { e, ok := v.(*ssa.Extract); return ok && e.Tuple == sizeCall && e.Index == 0 }
-	isSizeErr := func(v ssa.Value) bool { e, ok := v.(*ssa.Extract); return ok && e.Tuple == sizeCall && e.Index == 1 }
-	var mk *ssa.MakeSlice
-	eachInstr(h, func(i ssa.Instruction) {
-		if m, ok := i.(*ssa.MakeSlice); ok && typeStr(m.Type()) == "[]byte" {
-			mk = m
-		}
-	})
-	okMk := mk != nil && isSize(mk.Len) && knownNil(mk.Block(), isSizeErr)
-	var pos token.Pos = h.Pos()
-	if mk != nil {
-		pos = mk.Pos()
-	}
-	c.check("C10.S2", "(*proxy/tcp.SNIProxy).ServeTCP|buffer length is exactly the computed size", pos, okMk,
-		"the capture buffer must be make([]byte, n) with n the nil-error result of clientHelloBufferSize: a larger buffer reads beyond the first TLS record (blocking on data the client has not sent, or swallowing application data)")
-	if mk == nil {
-		return
-	}
-	// the consuming read: io.ReadFull(reader, data) with data == mk; no other Read/ReadFull before the lookup
-	var readFull *ssa.Call
-	nReads := 0
-	eachInstr(h, func(i ssa.Instruction) {
-		call, ok := i.(*ssa.Call)
-		if !ok {
-			return
-		}
-		n := calleeName(&call.Call)
-		if n == "io.ReadFull" || n == "io.ReadAtLeast" || n == "io.ReadAll" || (call.Call.IsInvoke() && call.Call.Method.Name() == "Read") || n == "(*bufio.Reader).Read" || n == "(*bufio.Reader).Discard" {
-			nReads++
-			if n == "io.ReadFull" && call.Call.Args[1] == mk {
-				readFull = call
-			}
-		}
-	})
-	c.check("C10.S2", "(*proxy/tcp.SNIProxy).ServeTCP|the only consuming read before routing is io.ReadFull into that buffer", pos, readFull != nil && nReads == 1,
-		"exactly one consuming read (io.ReadFull into the sized buffer) may precede the route lookup; Peek is non-consuming")
-	// data[5:] discharged by M3
-	var sl *ssa.Slice
-	eachInstr(h, func(i ssa.Instruction) {
-		if s, ok := i.(*ssa.Slice); ok && s.X == mk && nameCall.Call.Args[0] == s {
-			sl = s
-		}
-	})
-	if sl != nil {
-		low := int64(0)
-		if sl.Low != nil {
-			low, _ = constInt(sl.Low)
-		}
-		c.check("C10.M3", "(*proxy/tcp.SNIProxy).ServeTCP|data["+strconv.FormatInt(low, 10)+":] within the buffer", sl.Pos(), low <= minResult && knownNil(sl.Block(), isSizeErr),
-			fmt.Sprintf("the slice needs len(data) >= %d; the buffer has at least %d bytes on the nil-error path of clientHelloBufferSize", low, minResult))
-	} else {
-		c.undecided("C10.M3", "(*proxy/tcp.SNIProxy).ServeTCP|argument of the parser", "the parser is not given a slice of the capture buffer")
-	}
-	// lookup key = parser result, under ok == true and host != ""
-	isHost := func(v ssa.Value) bool { e, ok := v.(*ssa.Extract); return ok && e.Tuple == nameCall && e.Index == 0 }
-	isOK := func(v ssa.Value) bool { e, ok := v.(*ssa.Extract); return ok && e.Tuple == nameCall && e.Index == 1 }
-	nLk := 0
-	eachInstr(h, func(i ssa.Instruction) {
-		call, ok := i.(*ssa.Call)
-		if !ok || !isLookupFieldCall(call) {
-			return
-		}
-		nLk++
-		okKey := len(call.Call.Args) == 1 && isHost(call.Call.Args[0])
-		okFlag, nonEmpty := false, false
-		for _, f := range factsAt(call.Block()) {
-			if isOK(f.Cond) && f.Truth {
-				okFlag = true
-			}
-			if b, isB := f.Cond.(*ssa.BinOp); isB && isHost(b.X) {
-				if s, isS := constString(b.Y); isS && s == "" && ((b.Op == token.EQL && !f.Truth) || (b.Op == token.NEQ && f.Truth)) {
-					nonEmpty = true
-				}
-			}
-		}
-		c.check("C10.S2", "(*proxy/tcp.SNIProxy).ServeTCP|route looked up under the parsed server name only", call.Pos(), okKey && okFlag && nonEmpty,
-			"the route lookup must use the name returned by the parser, on the edge where parsing succeeded (ok) and the name is not empty; malformed or SNI-less hellos are rejected before any lookup or dial")
-	})
-	c.atLeast("C10.S2", "route lookups in the SNI handler", nLk, 1)
 }
 
 // currentOverlay is set while an overlay mutant is being analysed so that the compiler-based rule sees the same variant.
